@@ -2,6 +2,7 @@
 import PdfVerif.Model.Ccitt
 import PdfVerif.Model.CcittStream
 import PdfVerif.Spec.T6
+import PdfVerif.Lemmas.CcittSpecTables
 
 open PdfVerif PdfVerif.Ccitt
 
@@ -117,6 +118,25 @@ def step (line : String) : String :=
     match bytesOfHex hex, parseObj toks with
     | some data, some (.dict attrs, []) => showRes (streamDecode otherFilter attrs data)
     | _, _ => "bad-op"
+  | ["run", c, n] =>
+    -- the specification's run-length code (round 6: `spec_encodeRun_shape`)
+    match n.toNat? with
+    | some n => serBits (Spec.T6.encodeRun (c == "1") n)
+    | none => "bad-op"
+  | ["ext", n] =>
+    -- the extension code word `x<n>` of the regenerated MODE table (`extension_codes_rejected`)
+    match n.toNat? with
+    | some n => let c := extCode n; if c.isEmpty then "-" else serBits c
+    | none => "bad-op"
+  | ["spectab"] =>
+    -- the quantities of `spec_tables_T4`, evaluated on the frozen tables
+    let keysOk := decide (Spec.T6.white.map (·.1) = runKeys) && decide (Spec.T6.black.map (·.1) = runKeys)
+    toString (kraft 13 (Spec.T6.white.map (·.2))) ++ " " ++ toString (kraft 13 (Spec.T6.black.map (·.2))) ++ " "
+      ++ toString (kraft 7 specModeCodes) ++ " " ++ toString runKeys.length ++ " " ++ toString runKeys.sum ++ " "
+      ++ (if keysOk then "keys-ok" else "keys-differ") ++ " "
+      ++ (if prefixFree (Spec.T6.white.map (·.2)) && prefixFree (Spec.T6.black.map (·.2)) && prefixFree specModeCodes
+          then "prefix-free" else "not-prefix-free") ++ " "
+      ++ " ".intercalate (specModeCodes.map serBits)
   | ["dec", k, cols, align, rev, hex] =>
     match optInt k, optInt cols, bytesOfHex hex with
     | some k, some cols, some data =>
